@@ -2,7 +2,7 @@
 """False-alarm corpus: apply each behaviour-preserving edit to a scratch copy, prove it compiles and that the
 existing test-suite still passes is NOT needed (edits are semantic no-ops by construction), run ALL checks:
 none may fire.  usage: bin/benign_audit.py [name ...] -> selftest/benign_results.json"""
-import json, os, shutil, subprocess, sys, tempfile
+import fcntl, json, os, shutil, subprocess, sys, tempfile
 V = os.path.dirname(os.path.dirname(os.path.abspath(__file__)))
 idx = json.load(open(os.path.join(V, 'selftest/benign/index.json')))
 want = set(sys.argv[1:])
@@ -19,7 +19,7 @@ for m in idx:
     p = subprocess.run(['patch', '-p1', '-s', '-i', os.path.join(V, 'selftest/benign', name + '.diff')], cwd=repo)
     r = {'applied': p.returncode == 0}
     if p.returncode == 0:
-        env = dict(os.environ, CARGO_TARGET_DIR='/tmp/mutant-target', CARGO_NET_OFFLINE='true', RUSTFLAGS='-Awarnings')
+        env = dict(os.environ, CARGO_TARGET_DIR=os.environ.get('AUDIT_TARGET', '/tmp/mutant-target'), CARGO_NET_OFFLINE='true', RUSTFLAGS='-Awarnings')
         feat = ['--features', 'sdp,blas-src,lapack-src'] if 'psd' in name else []
         c = subprocess.run(['cargo', 'check', '--offline', '--lib'] + feat, cwd=repo, env=env, stdout=subprocess.PIPE, stderr=subprocess.STDOUT, text=True)
         r['compiles'] = c.returncode == 0
@@ -37,6 +37,11 @@ for m in idx:
     for f in os.listdir(os.path.join(V, '.cache/facts')):
         if ('-ben-' + name + '.') in f:
             os.remove(os.path.join(V, '.cache/facts', f))
-    json.dump(results, open(res_path, 'w'), indent=1, sort_keys=True)
+    with open(res_path + '.lock', 'w') as lk:
+        fcntl.flock(lk, fcntl.LOCK_EX)
+        cur = json.load(open(res_path)) if os.path.exists(res_path) else {}
+        cur[name] = r
+        json.dump(cur, open(res_path, 'w'), indent=1, sort_keys=True)
+        results = cur
 bad = [k for k, r in results.items() if r.get('fired') not in ('NONE', None)]
 print('benign edits: %d, false alarms: %s' % (len(results), bad))
